@@ -24,6 +24,51 @@ def globals_snapshot(pt):
             "checkScratchSlotEquality": TealComponent.Context.checkScratchSlotEquality}
 
 
+def rep(fn, n=3):
+    """n results of fn(); a failing call contributes its exception instead of aborting the probe, so that 'the second compilation
+    of the same object fails' shows up as a difference between repetitions."""
+    out = []
+    for _ in range(n):
+        try:
+            out.append(sha(fn()))
+        except BaseException as e:
+            out.append("EXC:" + type(e).__name__)
+    return out
+
+
+def deferred_programs(pt, seed):
+    """Programs that are *built* before the history runs and compiled after it: name -> thunk.  What unrelated programs do between
+    a program's construction and its compilation must not matter (registries keyed by template name, subroutine id, slot id...)."""
+    from vlib import build, recipes
+    from vlib.checks import c08
+    rng = random.Random("deferred/%d" % seed)
+    out = []
+    tm = pt.Seq(pt.Pop(pt.Tmpl.Addr("TMPL_K")), pt.Pop(pt.Tmpl.Bytes("TMPL_N")), pt.Pop(pt.Tmpl.Bytes("TMPL_Z")), pt.Tmpl.Int("TMPL_Q"))
+    out.append(("deferred_templates", lambda: rep(lambda: pt.compileTeal(tm, pt.Mode.Signature, version=6))))
+    out.append(("deferred_templates_assembled", lambda: rep(lambda: pt.compileTeal(tm, pt.Mode.Signature, version=6, assembleConstants=True))))
+    x = pt.abi.Uint64()
+    sv = pt.ScratchVar(pt.TealType.uint64, 9)
+
+    @pt.Subroutine(pt.TealType.uint64)
+    def helper(a):
+        return pt.Seq(pt.Assert(a > pt.Int(0), comment="positive"), a * pt.Int(3))
+    prog = pt.Seq(x.set(4), sv.store(helper(x.get())), pt.Assert(sv.load() < pt.Int(100), pt.Int(1), comment="two conditions"),
+                  pt.Comment("note", pt.Pop(pt.Int(7))), sv.load())
+    for v in (6, 8):
+        out.append(("deferred_program_v%d" % v, (lambda v=v: rep(lambda: pt.compileTeal(prog, pt.Mode.Application, version=v)))))
+    r = recipes.Gen(rng, version=6, mode="app", min_subs=1).program()
+    rv = max(6, recipes.min_version(r))
+    robj = build.build(r)
+    out.append(("deferred_recipe", lambda: rep(lambda: pt.compileTeal(robj, pt.Mode.Application, version=rv))))
+    cfg = c08.gen_config(rng)
+    while len(cfg["methods"]) < 2:
+        cfg = c08.gen_config(rng)
+    cfg["grow"] = False
+    router, _ = c08.build_router(pt, cfg)
+    out.append(("deferred_router", lambda: rep(lambda: "\n".join(router.compile_program(version=8)[:2]))))
+    return out
+
+
 # ------------------------------------------------------------------------------------------------ probe programs
 def probe_programs(pt, seed):
     """name -> thunk returning TEAL text(s).  Everything is built fresh from the seed; nothing is shared with the history."""
@@ -77,8 +122,9 @@ def probe_programs(pt, seed):
         def f(a):
             y = pt.abi.Uint16()
             return pt.Seq(y.set(a % pt.Int(7)), y.get() + a)
-        prog = pt.Seq(x.set(5), s.store(f(x.get())), pt.Log(pt.Itob(s.load())), pt.Int(1))
-        return [sha(pt.compileTeal(prog, pt.Mode.Application, version=v)) for _ in range(3)]
+        prog = pt.Seq(x.set(5), s.store(f(x.get())), pt.Assert(s.load() > pt.Int(0), comment="positive"), pt.Log(pt.Itob(s.load())),
+                      pt.Assert(s.load() < pt.Int(99), pt.Int(1), comment="both"), pt.Int(1))
+        return rep(lambda: pt.compileTeal(prog, pt.Mode.Application, version=v))
     for v in (6, 8):
         out.append(("same_object_v%d" % v, (lambda v=v: same_object_twice(v))))
     def router_fail_then_ok():
@@ -316,10 +362,11 @@ def main():
         FeatureGates.set_sourcemap_enabled(True)
     import pyteal as pt
     out = {"history": [], "state": [], "probes": {}, "errors": {}}
+    deferred = deferred_programs(pt, spec["probe_seed"])
     for act in spec.get("history", []):
         out["history"].append(do_activity(pt, act))
         out["state"].append(globals_snapshot(pt))
-    for name, thunk in probe_programs(pt, spec["probe_seed"]):
+    for name, thunk in deferred + probe_programs(pt, spec["probe_seed"]):
         try:
             r = thunk()
             out["probes"][name] = [x if len(x) < 70 else sha(x) for x in r] if isinstance(r, list) else sha(r)
